@@ -147,6 +147,31 @@ impl Report {
     }
 }
 
+thread_local! {
+    static LAST_PANIC_AT: std::cell::RefCell<String> = const { std::cell::RefCell::new(String::new()) };
+}
+
+/// Remember where the last panic of each thread was raised, so that a caught panic can be told
+/// apart: raised in harness code (`src/...` of this crate: a harness bug, inconclusive) or in the
+/// store / the standard library on its behalf (an observation about the store).
+pub fn install_panic_location_hook() {
+    let default = std::panic::take_hook();
+    std::panic::set_hook(Box::new(move |info| {
+        let loc = info.location().map(|l| format!("{}:{}", l.file(), l.line())).unwrap_or_default();
+        let _ = LAST_PANIC_AT.try_with(|c| *c.borrow_mut() = loc);
+        default(info);
+    }));
+}
+
+pub fn last_panic_location() -> String {
+    LAST_PANIC_AT.try_with(|c| c.borrow().clone()).unwrap_or_default()
+}
+
+/// True if the location names a file of the harness crate itself.
+pub fn panic_is_in_harness(loc: &str) -> bool {
+    loc.starts_with("src/") || loc.contains("/verif/harness/src/")
+}
+
 /// Tiny argv helper: `--name value` pairs and flags.
 pub struct Args {
     v: Vec<String>,
